@@ -60,14 +60,14 @@ FLOORS = {
         "leaves_multi_value": 80, "leaves_leaf_mode": 80, "leaves_ns_around_scan": 60, "result_checks": 450,
     },
     "thorough": {
-        "state_runs": 1000, "jit_state_runs": 1000, "seed_state_runs": 600, "state_seed_runs": 600,
-        "leaves_compared": 15000, "leaves_under_scan": 3000, "leaves_under_vmap": 2000,
-        "leaves_under_ns": 4000, "leaves_nested_scan": 300, "leaves_repeated_write": 2000,
-        "leaves_multi_value": 800, "leaves_leaf_mode": 800, "leaves_ns_around_scan": 600, "result_checks": 4000,
+        "state_runs": 800, "jit_state_runs": 800, "seed_state_runs": 450, "state_seed_runs": 450,
+        "leaves_compared": 12000, "leaves_under_scan": 2500, "leaves_under_vmap": 1600,
+        "leaves_under_ns": 3200, "leaves_nested_scan": 250, "leaves_repeated_write": 1600,
+        "leaves_multi_value": 600, "leaves_leaf_mode": 600, "leaves_ns_around_scan": 450, "result_checks": 3400,
     },
 }
 TIMEOUT_S = {"quick": 900, "thorough": 3600}
-NCASES = {"quick": 200, "thorough": 1800}
+NCASES = {"quick": 200, "thorough": 1500}
 TOL = 2e-5
 
 
